@@ -17,7 +17,7 @@ from . import common, engine
 # property -> (engine module, design section)
 ENGINES = {
     "C01": "eng_graph", "C05": "eng_graph", "C11": "eng_graph", "C15": "eng_graph", "C16": "eng_graph",
-    "C17": "eng_calendar", "C12": "eng_crit", "C18": "eng_query", "C10": "eng_copy", "C13": "eng_csv",
+    "C17": "eng_calendar", "C12": "eng_crit", "C18": "eng_query", "C10": "eng_copy", "C13": "eng_csv", "C19": "eng_render", "C20": "eng_render",
     "C02": "eng_sched", "C03": "eng_sched", "C04": "eng_sched", "C06": "eng_sched", "C07": "eng_sched",
     "C08": "eng_sched", "C09": "eng_sched", "C14": "eng_sched",
 }
